@@ -929,12 +929,17 @@ func retryBodyFresh(c *Ctx, want func(fnKey string) bool) {
 			}
 			okAll := true
 			why := ""
+			// created per attempt: inside the body function or inside a new helper it calls
+			perAttempt := map[*ssa.Function]bool{}
+			for _, g := range fnsDeep(cl) {
+				perAttempt[g] = true
+			}
 			for _, r := range returnsOf(cl) {
 				for _, l := range leaves(r.Results[0]) {
 					if _, isConst := l.(*ssa.Const); isConst {
 						continue
 					}
-					if ins, ok := l.(ssa.Instruction); ok && ins.Parent() == cl {
+					if ins, ok := l.(ssa.Instruction); ok && perAttempt[ins.Parent()] {
 						continue
 					}
 					okAll = false
